@@ -458,15 +458,18 @@ def check_C03(tier, seed):
             rep.machinery.append('MC_C03 printed no operation table / scenarios')
             return rep.finish()
         rng = random.Random(seed)
-        pick = rng.sample(descs, min(len(descs), 400 if quick else 5000))
+        pick = rng.sample(descs, min(len(descs), 400 if quick else 2400))
         scns = [_c03_scenario(d, optrees[0]) for d in pick]
         if not quick:
             nops = len(optrees[0])
             scns += [_c03_scenario({'ni': rng.randrange(1, 7), 'o1': rng.randrange(1, nops + 1), 'o2': rng.randrange(1, nops + 1), 'o3': rng.randrange(1, nops + 1)},
-                                   optrees[0]) for _ in range(1500)]
+                                   optrees[0]) for _ in range(800)]
         rep.notes['direction_a'] = {'scenarios_explored_by_tlc': len(descs), 'replayed_at_real_scale': len(scns)}
-        cases = engine.run_family(rep, scns)
-        engine.judge_cases(rep, cases, devs, what='cap scenario')
+        # in batches: the recorded traces of 10000-element scenarios are large
+        for start in range(0, len(scns), 400):
+            cases = engine.run_family(rep, scns[start:start + 400])
+            engine.judge_cases(rep, cases, devs, what='cap scenario')
+            del cases
     return rep.finish()
 
 
